@@ -11,7 +11,7 @@ EXTENDS Traversal, TraversalGenBase, Json
 
 
 GenCases == CASE Mode = "plain" -> CasesPlain [] Mode = "ctl" -> CasesCtl [] Mode = "subset" -> CasesSubset
-              [] Mode = "plain3" -> CasesPlain3 [] Mode = "plainonce" -> CasesPlainOnce
+              [] Mode = "plain3" -> CasesPlain3 [] Mode = "plainonce" -> CasesPlainOnce [] Mode = "ctl2" -> CasesCtl2
 
 Emit == done => PrintT(ToJson([g |-> case.g, sel |-> case.sel,
                                cfg |-> [nb |-> Cfg.nb, lb |-> Cfg.lb, start |-> Cfg.start, once |-> Cfg.once,
